@@ -73,7 +73,7 @@ def main():
     elif scen == 'with_subprocess':
         import subprocess
         l.acquire()
-        p = subprocess.Popen(['sleep', '1.5'], close_fds=False)
+        p = subprocess.Popen(['sleep', '6'], close_fds=False)
         l.release()
         l.acquire()
         l.release()
